@@ -145,6 +145,7 @@ type Backend struct {
 	IgnoreReadErr bool    `json:"ignore_read_err,omitempty"` // answer per script even if reading the request failed
 	CloseBody     bool    `json:"close_body,omitempty"`      // call Request.Body.Close() after reading, before answering (as proxies do)
 	CloseAfterWrites int  `json:"close_after_writes,omitempty"` // with CloseBody: close only after this many response Write calls
+	CompressError    bool   `json:"compress_error,omitempty"` // Connect unary: the error JSON body is sent compressed, too
 	CompressEnd      bool   `json:"compress_end,omitempty"`  // gRPC-Web trailer frame / Connect end-of-stream frame sent compressed (flag bit 0)
 	TrailerCase      string `json:"trailer_case,omitempty"`  // spelling of the names in the Trailer announcement: "" canonical | lower | mixed | upper
 	OKMessage        string `json:"ok_message,omitempty"`    // gRPC family: grpc-message sent next to grpc-status 0 (some servers do)
